@@ -6,6 +6,7 @@ package main
 
 import (
 	"encoding/json"
+	"regexp"
 	"fmt"
 	"os"
 	"os/exec"
@@ -86,13 +87,94 @@ func main() {
 			usage()
 		}
 		os.Exit(check(os.Args[2], os.Args[3], os.Args[4:]))
+	case "replay":
+		if len(os.Args) < 3 {
+			usage()
+		}
+		os.Exit(replay(os.Args[2]))
 	default:
 		usage()
 	}
 }
 
+// replay runs the harness named in a replay file natively (against the real
+// build of /repo's current tree) with the inputs it records.
+func replay(file string) int {
+	b, err := os.ReadFile(file)
+	if err != nil {
+		fmt.Fprintln(os.Stderr, "gosym:", err)
+		return 2
+	}
+	var rf struct {
+		Property string `json:"property"`
+		Harness  string `json:"harness"`
+		Tier     int    `json:"tier"`
+	}
+	if err := json.Unmarshal(b, &rf); err != nil || rf.Property == "" || rf.Harness == "" {
+		fmt.Fprintln(os.Stderr, "gosym: not a replay file:", file)
+		return 2
+	}
+	s, err := loadSpec(rf.Property)
+	if err != nil {
+		fmt.Fprintln(os.Stderr, "gosym:", err)
+		return 2
+	}
+	units := s.Units
+	if len(units) == 0 {
+		units = []unitSpec{{Pkg: s.Pkg, Files: s.Files, NoNative: s.NoNative}}
+	}
+	re := regexp.MustCompile(`(?m)^func (Verif[A-Za-z0-9_]+)\(\)`)
+	for _, u := range units {
+		us := *s
+		us.Pkg, us.Files = u.Pkg, u.Files
+		var names []string
+		found := false
+		for _, f := range u.Files {
+			src, err := os.ReadFile(filepath.Join(verifRoot, "harness", rf.Property, f))
+			if err != nil {
+				continue
+			}
+			for _, m := range re.FindAllStringSubmatch(string(src), -1) {
+				if strings.HasPrefix(m[1], s.Prefix) || strings.HasPrefix(m[1], "Verif"+rf.Property+"_") {
+					names = append(names, m[1])
+					if m[1] == rf.Harness {
+						found = true
+					}
+				}
+			}
+		}
+		if !found {
+			continue
+		}
+		if u.NoNative {
+			fmt.Println("gosym: harness", rf.Harness, "explores schedules; its counterexamples are decision sequences of the engine and cannot be replayed natively (re-run `check", rf.Property, "quick", rf.Harness+"`)")
+			return 2
+		}
+		abs, _ := filepath.Abs(file)
+		nat := &native{id: rf.Property, spec: &us, overlay: overlayFiles(rf.Property, &us), harnesses: names, tier: rf.Tier}
+		defer nat.cleanup()
+		out, err := nat.run(abs)
+		for _, line := range strings.Split(out, "\n") {
+			if strings.HasPrefix(line, "VERIF-") || strings.HasPrefix(line, "fatal error") || strings.HasPrefix(line, "--- ") {
+				fmt.Println(line)
+			}
+		}
+		if err != nil {
+			fmt.Fprintln(os.Stderr, "gosym:", err)
+			return 2
+		}
+		if strings.Contains(out, "VERIF-ASSERT-FAIL") || strings.Contains(out, "VERIF-PANIC") || strings.Contains(out, "fatal error:") {
+			fmt.Printf("VIOLATION property=%s replay=%s\n", rf.Property, abs)
+			return 1
+		}
+		return 0
+	}
+	fmt.Fprintln(os.Stderr, "gosym: harness", rf.Harness, "not found in property", rf.Property)
+	return 2
+}
+
 func usage() {
-	fmt.Fprintln(os.Stderr, "usage: gosym check <ID> <quick|thorough> [harness-substring]")
+	fmt.Fprintln(os.Stderr, "usage: gosym check <ID> <quick|thorough> [harness-substring] | gosym replay <file.replay.json>")
 	os.Exit(2)
 }
 
